@@ -421,6 +421,11 @@ fn check_case(sh: &mut Shard, mode: &str, class: &str, label: &str, text: &str, 
         }
         Ok(Outcome::Ran(obs)) => {
             sh.count("programs_executed", 1);
+            for f in features.split('+') {
+                if matches!(f, "fb-output-binding" | "pow" | "short-circuit-guard" | "for-to-type-limit") {
+                    sh.count(&format!("programs_executed_with_{f}"), 1);
+                }
+            }
             sh.count("cycles_executed", obs.len() as u64);
             let total_steps: u64 = obs.iter().map(|o| o.steps).sum();
             if total_steps > 0 {
@@ -720,6 +725,21 @@ fn matrix_cells(rng: &mut Rng, shard: usize, nshards: usize, budget: usize) -> V
             }
         }
     }
+    // directly addressed variables of every type that fits an address size: the latch / publish conversions must keep the declared type
+    for (letter, types) in [("X", vec!["BOOL"]), ("B", vec!["BYTE", "SINT", "USINT"]), ("W", vec!["WORD", "INT", "UINT"]), ("D", vec!["DWORD", "DINT", "UDINT", "REAL"]), ("L", vec!["LWORD", "LINT", "ULINT", "LREAL"])] {
+        for t in types {
+            n += 1;
+            if n % nshards != shard {
+                continue;
+            }
+            let bit = if letter == "X" { ".0" } else { "" };
+            cells.push((
+                format!("io-bound {t} %{letter}"),
+                "matrix|io-binding".into(),
+                format!("PROGRAM Main\nVAR\n  i AT %I{letter}0{bit} : {t};\n  m AT %M{letter}8{bit} : {t};\n  q AT %Q{letter}0{bit} : {t};\n  keep : {t};\n  arr : ARRAY[0..1] OF {t};\nEND_VAR\nkeep := i;\narr[1] := m;\nq := i;\nm := keep;\nEND_PROGRAM\n"),
+            ));
+        }
+    }
     // feature-switch cells: the deviations the generator otherwise avoids
     let specials: Vec<(&str, &str, String)> = vec![
         ("case variation", "switch|case-variation", "PROGRAM Main\nVAR\n  Counter : INT;\nEND_VAR\ncounter := COUNTER + INT#1;\nEND_PROGRAM\n".into()),
@@ -729,6 +749,7 @@ fn matrix_cells(rng: &mut Rng, shard: usize, nshards: usize, budget: usize) -> V
         ("subrange overflow", "switch|subrange-overflow", "PROGRAM Main\nVAR\n  s : INT(0..10);\n  x : INT := INT#50;\nEND_VAR\ns := x;\nEND_PROGRAM\n".into()),
         ("enum case", "switch|case-enum-selector", "TYPE E : (Red, Green, Blue); END_TYPE\nPROGRAM Main\nVAR\n  e : E := E#Green;\n  r : INT;\nEND_VAR\nCASE e OF\n  E#Red: r := INT#1;\n  E#Green: r := INT#2;\nEND_CASE;\nEND_PROGRAM\n".into()),
         ("pow negative int exponent", "switch|pow-negative-exponent", "PROGRAM Main\nVAR\n  a : INT := INT#2;\n  b : INT := INT#-1;\n  r : INT;\nEND_VAR\nr := a ** b;\nEND_PROGRAM\n".into()),
+        ("en/eno calls", "switch|en-eno", "FUNCTION Scale : INT\nVAR_INPUT EN : BOOL; x : INT; END_VAR\nVAR_OUTPUT ENO : BOOL; END_VAR\nScale := x * INT#2;\nEND_FUNCTION\nFUNCTION Compute : INT\nVAR_INPUT enable : BOOL; base : INT; END_VAR\nVAR tmp : INT; ok : BOOL; END_VAR\ntmp := Scale(EN := enable, x := base, ENO => ok);\nIF enable THEN\n  Compute := tmp + base;\nELSE\n  Compute := base * INT#3;\nEND_IF;\nEND_FUNCTION\nFUNCTION_BLOCK Gate\nVAR_INPUT EN : BOOL; x : INT; END_VAR\nVAR_OUTPUT ENO : BOOL; y : INT; END_VAR\nVAR n : INT; END_VAR\nn := n + INT#1;\ny := x + n;\nEND_FUNCTION_BLOCK\nFUNCTION_BLOCK User\nVAR_INPUT go : BOOL; END_VAR\nVAR_OUTPUT o : INT; END_VAR\nVAR loc : INT := INT#7; t : INT; END_VAR\nt := Scale(EN := go, x := loc);\nIF go THEN\n  o := t + loc;\nELSE\n  o := loc;\nEND_IF;\nEND_FUNCTION_BLOCK\nPROGRAM Main\nVAR d1 : INT; r1 : INT; r2 : INT; ok2 : BOOL := TRUE; g : Gate; h : Gate; gn : INT; hy : INT; gok : BOOL := TRUE; u : User; u2 : User; uo : INT; u2o : INT; skipped : INT; END_VAR\nd1 := Scale(EN := TRUE, x := INT#4);\nskipped := Scale(EN := FALSE, x := INT#4, ENO => ok2);\nr1 := Compute(enable := TRUE, base := INT#5);\nr2 := Compute(enable := FALSE, base := INT#5);\ng(EN := FALSE, x := INT#3, ENO => gok);\nh(EN := TRUE, x := INT#3);\nhy := h.y;\nu(go := FALSE);\nu2(go := TRUE);\nuo := u.o;\nu2o := u2.o;\nEND_PROGRAM\n".into()),
         ("recursion", "switch|recursion", "FUNCTION R : DINT\nVAR_INPUT n : DINT; END_VAR\nIF n <= DINT#0 THEN\n  R := DINT#0;\nELSE\n  R := R(n - DINT#1) + DINT#1;\nEND_IF;\nEND_FUNCTION\nPROGRAM Main\nVAR\n  x : DINT;\nEND_VAR\nx := R(DINT#50);\nEND_PROGRAM\n".into()),
         ("exit in nested if", "switch|none", "PROGRAM Main\nVAR\n  i : DINT;\n  n : DINT;\nEND_VAR\nFOR i := DINT#0 TO DINT#9 DO\n  IF i > DINT#3 THEN\n    IF TRUE THEN EXIT; END_IF;\n  END_IF;\n  n := n + DINT#1;\nEND_FOR;\nEND_PROGRAM\n".into()),
         ("time arithmetic", "switch|time-arith", "PROGRAM Main\nVAR\n  t : TIME := T#1s;\n  u : TIME;\n  b : BOOL;\nEND_VAR\nu := ADD_TIME(t, T#5ms);\nu := SUB_TIME(u, t);\nb := u < t;\nu := MUL_TIME(t, INT#3);\nEND_PROGRAM\n".into()),
